@@ -78,7 +78,7 @@ def analyse(lat, coords, sites, framework, labels, endpoints=None, do_path=True)
                 res['n_solo'] = None
         except ValueError:
             res['jumps'] = []
-        rd = radial_distribution(transitions=tr, floating_specie='Li', max_dist=4.0, resolution=0.5)
+        rd = radial_distribution(transitions=tr, floating_specie='Li', max_dist=4.0, resolution=0.45)  # squared distances are dyadic, (0.45 k)^2 never is: no pair sits on a bin edge
         res['rdf'] = {(state, r.label): np.array(r.y).tolist() for state, coll in rd.items() for r in coll}
         m = traj.filter('Li').metrics()
         res['tracer'] = float(m.tracer_diffusivity(dimensions=3))
